@@ -41,6 +41,8 @@ GroupVerdict(e) ==
   ELSE IF Flatten(rows) # e.input THEN "flattening_differs_from_input"
   ELSE IF ~Sound(s, rows) THEN "element_is_not_a_declared_child_of_its_parent"
   ELSE IF e.out_nofg = "ok" /\ e.lines_fg # e.lines_nofg THEN "encoding_differs_with_and_without_group_finding"
+  \* the same text assigned to a message created without a name (Message().value = text) is grouped alike
+  ELSE IF "tree_val" \in DOMAIN e /\ e.out_val = "ok" /\ e.tree_val # e.tree THEN "grouping_differs_when_the_text_is_assigned_to_an_empty_message"
   ELSE IF Unambiguous(s, e.input) /\ rows # Prescribed(s, e.input) THEN "tree_is_not_the_prescribed_one"
   \* when the prescribed forest satisfies every cardinality of the structure, the validator must find no structural error
   ELSE IF Unambiguous(s, e.input) /\ ~e.valid
